@@ -1,3 +1,11 @@
+//! vf-store: checks that need the rocksdb-backed substate stores (C15, C19).
+
+pub mod c15;
+pub mod c19;
+pub mod model;
+pub mod scratch;
+pub mod smt;
+
 pub fn checks() -> Vec<vf_core::Check> {
-    vec![]
+    vec![c15::check(), c19::check()]
 }
